@@ -75,7 +75,7 @@ class Interp:
     def __init__(self, registry, zs=None):
         self.reg = registry
         self.zs = zs or shared_zs()
-        self.zs.on_intern = lambda fact: (self.path.assume(fact) if getattr(self, 'path', None) is not None else None)
+        self.zs.on_intern = self.interned_object
         self.path: Path = None
         self.recfuns = _SHARED['recfuns']   # spec name -> z3 RecFunction / Function (process-wide: z3 names are global)
         self.assumptions = set()    # textual list of assumptions actually used
@@ -103,6 +103,30 @@ class Interp:
         p.obligs.append(Obligation(name, kind, list(p.pc) + extra, goal, line, p.pid(), note))
 
     # ================================================================ truth / equality / lifting
+    def interned_object(self, fact, const, obj):
+        """a concrete python object used where an opaque object is expected: distinct from the other interned objects, and
+        its declared opaque attributes have their real values"""
+        p = getattr(self, 'path', None)
+        if p is None:
+            return
+        p.assume(fact)
+        for an, S in (getattr(getattr(self, 'cur_contract', None), 'opaque_attrs', None) or {}).items():
+            if not hasattr(obj, an):
+                continue
+            rv = getattr(obj, an)
+            inner = S.inner if isinstance(S, api.Opt) else S
+            try:
+                f = self.ufun(f'attr_{an}', self.zs.zsort(api.Obj), self.zs.zsort(inner))
+                if isinstance(S, api.Opt):
+                    nf = self.ufun(f'attr_{an}_none', self.zs.zsort(api.Obj), z3.BoolSort())
+                    p.assume(nf(const) == (rv is None))
+                    if rv is not None:
+                        p.assume(f(const) == self.zs.lift(rv, self.zs.zsort(inner)))
+                else:
+                    p.assume(f(const) == self.zs.lift(rv, self.zs.zsort(inner)))
+            except TypeError:
+                pass
+
     def truth(self, v):
         """python truthiness -> python bool or z3 Bool"""
         if isinstance(v, bool):
